@@ -31,6 +31,21 @@ pub struct Report {
     heartbeat: std::sync::Arc<std::sync::Mutex<(std::time::Instant, String, usize)>>,
 }
 
+/// the heartbeat of the current run, reachable from the driver and the oracle loop
+static GLOBAL_HB: std::sync::OnceLock<std::sync::Arc<std::sync::Mutex<(std::time::Instant, String, usize)>>> = std::sync::OnceLock::new();
+/// true while the harness waits for the MODEL (the Lean driver): that time is not the implementation's
+pub static IN_DRIVER: std::sync::atomic::AtomicBool = std::sync::atomic::AtomicBool::new(false);
+
+/// progress that is not a finished case (a round trip to the model): the hang watchdog watches the IMPLEMENTATION, which
+/// runs in-process between two such beats
+pub fn beat() {
+    if let Some(hb) = GLOBAL_HB.get() {
+        if let Ok(mut g) = hb.lock() {
+            g.0 = std::time::Instant::now();
+        }
+    }
+}
+
 /// where the harness report goes (set by main before the run; the hang watchdog writes a minimal report there)
 pub static OUT_PATH: std::sync::OnceLock<String> = std::sync::OnceLock::new();
 
@@ -41,6 +56,10 @@ fn spawn_watchdog(prop: String, tier: String, seed: u64, hb: std::sync::Arc<std:
     std::thread::spawn(move || loop {
         std::thread::sleep(std::time::Duration::from_secs(2));
         let (t, key, n) = { let g = hb.lock().unwrap(); (g.0, g.1.clone(), g.2) };
+        if IN_DRIVER.load(std::sync::atomic::Ordering::SeqCst) {
+            // waiting for the model: not the implementation's time (the check's overall time limit still applies)
+            continue;
+        }
         if t.elapsed().as_secs() > HANG_LIMIT_S {
             std::fs::create_dir_all("/verif/replays").ok();
             let path = format!("/verif/replays/{}-{}-hang.json", prop, seed);
@@ -79,6 +98,7 @@ impl Report {
     pub fn new(prop: &str, tier: &str, seed: u64) -> Report {
         let heartbeat = std::sync::Arc::new(std::sync::Mutex::new((std::time::Instant::now(), String::new(), 0usize)));
         spawn_watchdog(prop.to_string(), tier.to_string(), seed, heartbeat.clone());
+        let _ = GLOBAL_HB.set(heartbeat.clone());
         Report {
             prop: prop.to_string(),
             tier: tier.to_string(),
